@@ -5,7 +5,7 @@
 import HLV.Logic.Contracts
 namespace HLV
 
-variable {n : Nat}
+variable {n : Nat} {ro : RankOpt}
 
 def ptrsM (ps : List Ptr) : Members := ps.map fun p => (p.lock, p.fp)
 
@@ -20,13 +20,13 @@ theorem ptrsM_fp (ps : List Ptr) : Members.fp (ptrsM ps) = fun m => ps.flatMap (
   | nil => rfl
   | cons p ps ih => simp [Members.fp_cons, ih]
 
-theorem Members.Ok.append {a b : Members} (ha : a.Ok n) (hb : b.Ok n) : Members.Ok n (a ++ b) := by
+theorem Members.Ok.append {a b : Members} (ha : a.Ok n ro) (hb : b.Ok n ro) : Members.Ok n ro (a ++ b) := by
   intro p hp
   rcases List.mem_append.1 hp with h | h
   · exact ha p h
   · exact hb p h
 
-theorem ptrsM_sort_ok {ps : List Ptr} (h : (ptrsM ps).Ok n) : (ptrsM (sortPtrs ps)).Ok n := by
+theorem ptrsM_sort_ok {ps : List Ptr} (h : (ptrsM ps).Ok n ro) : (ptrsM (sortPtrs ps)).Ok n ro := by
   intro q hq
   simp only [ptrsM, List.mem_map] at hq
   obtain ⟨p, hp, rfl⟩ := hq
@@ -34,35 +34,74 @@ theorem ptrsM_sort_ok {ps : List Ptr} (h : (ptrsM ps).Ok n) : (ptrsM (sortPtrs p
   exact h _ (List.mem_map_of_mem this)
 
 mutual
+/-- Rank validity of a shape (vacuous without a rank): the acquisition order of every sorting
+collection (address-sorted units) and of every owned collection (listing order of its units)
+is strictly rank-increasing. -/
+def ShapeOK (ro : RankOpt) (W : World) : Shape → Prop
+  | .mutex _ => True
+  | .rwlock _ => True
+  | .seq ss => ShapeOKL ro W ss
+  | .poisonable _ s => ShapeOK ro W s
+  | .boxed s => ShapeOK ro W s ∧ ∀ m, Members.Chain ro (ptrsM (sortPtrs (getPtrs W s))) m
+  | .refc s => ShapeOK ro W s ∧ ∀ m, Members.Chain ro (ptrsM (sortPtrs (getPtrs W s))) m
+  | .retry s => ShapeOK ro W s
+  | .owned _ s => ShapeOK ro W s ∧ ∀ m, Members.Chain ro (ptrsM (getPtrs W s)) m
+def ShapeOKL (ro : RankOpt) (W : World) : List Shape → Prop
+  | [] => True
+  | s :: ss => ShapeOK ro W s ∧ ShapeOKL ro W ss
+end
+
+theorem chain_none (ms : Members) (m : Mode) : Members.Chain none ms m := by
+  unfold Members.Chain
+  induction ms with
+  | nil => exact List.Pairwise.nil
+  | cons p ms ih => exact List.pairwise_cons.2 ⟨fun _ _ => trivial, ih⟩
+
+mutual
+theorem shapeOK_none (W : World) : ∀ S : Shape, ShapeOK none W S
+  | .mutex _ => trivial
+  | .rwlock _ => trivial
+  | .seq ss => by simpa [ShapeOK] using shapeOKL_none W ss
+  | .poisonable _ s => by simpa [ShapeOK] using shapeOK_none W s
+  | .boxed s => ⟨shapeOK_none W s, fun m => chain_none _ m⟩
+  | .refc s => ⟨shapeOK_none W s, fun m => chain_none _ m⟩
+  | .retry s => by simpa [ShapeOK] using shapeOK_none W s
+  | .owned _ s => ⟨shapeOK_none W s, fun m => chain_none _ m⟩
+theorem shapeOKL_none (W : World) : ∀ ss : List Shape, ShapeOKL none W ss
+  | [] => trivial
+  | s :: ss => ⟨shapeOK_none W s, shapeOKL_none W ss⟩
+end
+
+mutual
 /-- Everything `get_ptrs` hands to an enclosing collection behaves like a lock. -/
-theorem getPtrs_ok (W : World) : ∀ S : Shape, (ptrsM (getPtrs W S)).Ok n
-  | .mutex x => by
+theorem getPtrs_ok (W : World) : ∀ S : Shape, ShapeOK ro W S → (ptrsM (getPtrs W S)).Ok n ro
+  | .mutex x, _ => by
     intro q hq
     simp only [getPtrs, ptrsM_cons, ptrsM_nil, List.mem_singleton] at hq
     subst hq
     exact isLock_mutexLeaf x
-  | .rwlock x => by
+  | .rwlock x, _ => by
     intro q hq
     simp only [getPtrs, ptrsM_cons, ptrsM_nil, List.mem_singleton] at hq
     subst hq
     exact isLock_rwLeaf x
-  | .seq ss => by simpa [getPtrs] using getPtrsL_ok W ss
-  | .poisonable _ s => by simpa [getPtrs] using getPtrs_ok W s
-  | .boxed s => by simpa [getPtrs] using ptrsM_sort_ok (getPtrs_ok W s)
-  | .refc s => by simpa [getPtrs] using ptrsM_sort_ok (getPtrs_ok W s)
-  | .retry s => by simpa [getPtrs] using getPtrs_ok W s
-  | .owned a s => by
+  | .seq ss, h => by simpa [getPtrs] using getPtrsL_ok W ss (by simpa [ShapeOK] using h)
+  | .poisonable _ s, h => by simpa [getPtrs] using getPtrs_ok W s (by simpa [ShapeOK] using h)
+  | .boxed s, h => by simpa [getPtrs] using ptrsM_sort_ok (getPtrs_ok W s h.1)
+  | .refc s, h => by simpa [getPtrs] using ptrsM_sort_ok (getPtrs_ok W s h.1)
+  | .retry s, h => by simpa [getPtrs] using getPtrs_ok W s (by simpa [ShapeOK] using h)
+  | .owned a s, h => by
     intro q hq
     simp only [getPtrs, ptrsM_cons, ptrsM_nil, List.mem_singleton] at hq
     subst hq
-    have := isLock_ordered (n := n) (ptrsM (getPtrs W s)) (getPtrs_ok W s)
+    have := isLock_ordered (n := n) (ro := ro) (ptrsM (getPtrs W s)) (getPtrs_ok W s h.1) h.2
     rw [ptrsM_locks, ptrsM_fp] at this
     exact this
-theorem getPtrsL_ok (W : World) : ∀ ss : List Shape, (ptrsM (getPtrsL W ss)).Ok n
-  | [] => by intro q hq; simp [getPtrsL] at hq
-  | s :: ss => by
+theorem getPtrsL_ok (W : World) : ∀ ss : List Shape, ShapeOKL ro W ss → (ptrsM (getPtrsL W ss)).Ok n ro
+  | [], _ => by intro q hq; simp [getPtrsL] at hq
+  | s :: ss, h => by
     simp only [getPtrsL, ptrsM_append]
-    exact (getPtrs_ok W s).append (getPtrsL_ok W ss)
+    exact (getPtrs_ok W s h.1).append (getPtrsL_ok W ss h.2)
 end
 
 /-- The footprint of the shape's own `RawLock` impl. -/
@@ -83,27 +122,28 @@ def lockable : Shape → Bool
   | _ => true
 
 /-- **Every lockable shape is a lock**: any kind, any size, any nesting, any mode, any answers. -/
-theorem toRaw_isLock (W : World) : ∀ S : Shape, lockable S = true → IsLock n (toRaw W S) (shapeFp W S)
-  | .mutex x, _ => isLock_mutexLeaf x
-  | .rwlock x, _ => isLock_rwLeaf x
-  | .seq _, h => by simp [lockable] at h
-  | .poisonable _ s, h => by
-    have := toRaw_isLock W s (by simpa [lockable] using h)
+theorem toRaw_isLock (W : World) : ∀ S : Shape, lockable S = true → ShapeOK ro W S →
+    IsLock n ro (toRaw W S) (shapeFp W S)
+  | .mutex x, _, _ => isLock_mutexLeaf x
+  | .rwlock x, _, _ => isLock_rwLeaf x
+  | .seq _, h, _ => by simp [lockable] at h
+  | .poisonable _ s, h, hk => by
+    have := toRaw_isLock W s (by simpa [lockable] using h) (by simpa [ShapeOK] using hk)
     simpa [toRaw, toRaw?, shapeFp] using this
-  | .boxed s, _ => by
-    have := isLock_ordered (n := n) _ (ptrsM_sort_ok (getPtrs_ok W s))
+  | .boxed s, _, hk => by
+    have := isLock_ordered (n := n) (ro := ro) _ (ptrsM_sort_ok (getPtrs_ok W s hk.1)) hk.2
     rw [ptrsM_locks] at this
     simpa [toRaw, toRaw?, shapeFp] using this
-  | .refc s, _ => by
-    have := isLock_ordered (n := n) _ (ptrsM_sort_ok (getPtrs_ok W s))
+  | .refc s, _, hk => by
+    have := isLock_ordered (n := n) (ro := ro) _ (ptrsM_sort_ok (getPtrs_ok W s hk.1)) hk.2
     rw [ptrsM_locks] at this
     simpa [toRaw, toRaw?, shapeFp] using this
-  | .retry s, _ => by
-    have := isLock_retry (n := n) W.fuel _ (getPtrs_ok W s)
+  | .retry s, _, hk => by
+    have := isLock_retry (n := n) (ro := ro) W.fuel _ (getPtrs_ok W s (by simpa [ShapeOK] using hk))
     rw [ptrsM_locks] at this
     simpa [toRaw, toRaw?, shapeFp] using this
-  | .owned _ s, _ => by
-    have := isLock_ordered (n := n) _ (getPtrs_ok W s)
+  | .owned _ s, _, hk => by
+    have := isLock_ordered (n := n) (ro := ro) _ (getPtrs_ok W s hk.1) hk.2
     rw [ptrsM_locks] at this
     simpa [toRaw, toRaw?, shapeFp] using this
 
